@@ -39,7 +39,7 @@ CHECKS["C24"] = {
 
 
 VM_FILES = ["vm/lib.go", "vm/corpus.go", "vm/corpus_wild_gen.go"]
-VM_GROUPS_Q = ["0[1-7]", "0[89]|1[0-4]", "1[5-9]|2[01]", "2[2-8]", "29|3[0-5]"]
+VM_GROUPS_Q = ["0[1-7]", "0[89]|1[0-4]", "1[5-9]|2[01]", "2[2-8]", "29|3[0-7]"]
 
 
 def vm_units(labels):
@@ -52,7 +52,7 @@ def vm_units(labels):
 CHECKS["C22"] = {
     "level": "other",
     "explanation": "The real compiler produces each program of a corpus of program shapes; the real Machine (ResolveResources/ResolveBalances/Execute, Funding.Take/TakeMax/Concat, Allotment.Allocate) is executed symbolically with symbolic amounts, caps, overdraft limits, rational portions and account balances of any sign. z3 decides for every value: posting amounts >= 0, statement asset, sum of postings == sent amount (for 'send [A *]': the reference definition of available funds), 'kept' yields no posting, tracked balances == initial + postings.",
-    "bounds": {"quick": "35 program shapes (in-order/allotment/max sources and destinations, overdraft clauses, send-all, kept, save, balance() variable, multi-send, repeated accounts); all numeric inputs unbounded", "thorough": "same corpus"},
+    "bounds": {"quick": "37 program shapes (in-order/allotment/max sources and destinations, overdraft clauses, send-all, kept, save, balance() variable, multi-send, repeated accounts, two balance() variables on one account, a number variable handed over as JSON text); all numeric inputs unbounded", "thorough": "same corpus"},
     "outside": "programs outside the shape corpus; the ANTLR front end is run concretely (not symbolically); account names are concrete per shape",
     "assumptions": COMMON_ASSUME,
     "units": vm_units("^C22:"),
@@ -300,8 +300,8 @@ CHECKS["C29"] = {
 
 CHECKS["C27"] = {
     "level": "other",
-    "explanation": "Decided part of 'never crashes': (a) every program of the 34-shape corpus, compiled by the real compiler, is executed by the real Machine through vm.Run with ANY typed variable values (amounts and numbers of any sign, portions n/d with any n and any d != 0, so also above 100% and negative) and any balances: no reachable panic, a failed run returns no (partial) result, a successful one returns every posting, the program counter only moves forward (the loop terminates within the executor's step bound on every path). (b) machine.NewValueFromString — the door for variable JSON and account metadata — on a symbolic string for every variable type (account, asset, string, number, monetary, portion; regexes, SplitN, big.Rat.SetString and FindStringSubmatch are encoded over SMT strings): no panic, an error carries no value, an accepted portion lies in [0,1].",
-    "bounds": {"quick": "35 program shapes; all numeric values unbounded; value strings of <= 6 bytes (portion <= 5, monetary 4+1+3)", "thorough": "same"},
+    "explanation": "Decided part of 'never crashes': (a) every program of the 37-shape corpus, compiled by the real compiler, is executed by the real Machine through vm.Run with ANY typed variable values (amounts and numbers of any sign, portions n/d with any n and any d != 0, so also above 100% and negative) and any balances: no reachable panic, a failed run returns no (partial) result, a successful one returns every posting, the program counter only moves forward (the loop terminates within the executor's step bound on every path). (b) machine.NewValueFromString — the door for variable JSON and account metadata — on a symbolic string for every variable type (account, asset, string, number, monetary, portion; regexes, SplitN, big.Rat.SetString and FindStringSubmatch are encoded over SMT strings): no panic, an error carries no value, an accepted portion lies in [0,1]. Number variables are additionally read from every kind of JSON literal (null, booleans, strings, fractions, arrays, ...) both directly and through SetVarsFromJSON + ResolveResources, and an accepted value must have the requested type.",
+    "bounds": {"quick": "37 program shapes; all numeric values unbounded; value strings of <= 6 bytes (portion <= 5, monetary 4+1+3)", "thorough": "same"},
     "outside": "'compiling any byte string': the ANTLR ATN simulator and the generated parser cannot be executed on symbolic bytes within reach — compilation of arbitrary text is NOT decided; programs outside the corpus; SetVarsFromJSON's JSON layer",
     "assumptions": COMMON_ASSUME + ["FindStringSubmatch on a symbolic subject returns some decomposition of the subject along the pattern (Go's leftmost-first choice when it is unique, as for the repo's patterns)"],
     "units": [
